@@ -16,6 +16,10 @@ pub struct KnotSpec {
     pub interior: Vec<(u8, u8)>,
     /// gap from the last interior knot (or the left end) to the right end, in quarters
     pub last_gap_q: u8,
+    /// the whole sequence is multiplied by 2^scale_exp (exact): a domain of 1e-18 or of 1e9 (knots
+    /// that are POSIX timestamps) must behave like the unit-sized one
+    #[serde(default)]
+    pub scale_exp: i16,
 }
 
 impl KnotSpec {
@@ -33,6 +37,10 @@ impl KnotSpec {
         x += self.last_gap_q.clamp(1, 16) as f64 * 0.25;
         for _ in 0..k {
             t.push(x);
+        }
+        if self.scale_exp != 0 {
+            let s = 2f64.powi(self.scale_exp.clamp(-80, 80) as i32);
+            t.iter_mut().for_each(|v| *v *= s);
         }
         t
     }
@@ -65,7 +73,15 @@ pub struct C14;
 
 pub fn knot_spec() -> impl Strategy<Value = KnotSpec> {
     (1usize..=6, -20i32..=20, proptest::collection::vec((prop_oneof![3 => 1u8..=4, 1 => 5u8..=16], 1u8..=5), 0..=8), prop_oneof![3 => 1u8..=4, 1 => 5u8..=16])
-        .prop_map(|(k, start_q, interior, last_gap_q)| KnotSpec { k, start_q, interior, last_gap_q })
+        .prop_map(|(k, start_q, interior, last_gap_q)| KnotSpec { k, start_q, interior, last_gap_q, scale_exp: 0 })
+}
+
+/// as `knot_spec`, with the domain scaled by a power of two in 40% of the draws
+pub fn knot_spec_scaled() -> impl Strategy<Value = KnotSpec> {
+    (knot_spec(), prop_oneof![6 => Just(0i16), 2 => -70i16..=-30, 2 => 20i16..=40]).prop_map(|(mut k, e)| {
+        k.scale_exp = e;
+        k
+    })
 }
 
 pub fn x_spec() -> impl Strategy<Value = XSpec> {
@@ -108,7 +124,7 @@ pub fn resolve_x(t: &[f64], xs: &XSpec) -> f64 {
 }
 
 fn case_strategy() -> impl Strategy<Value = Case> {
-    (knot_spec(), proptest::collection::vec(x_spec(), 1..6)).prop_map(|(knots, xs)| Case { knots, xs })
+    (knot_spec_scaled(), proptest::collection::vec(x_spec(), 1..6)).prop_map(|(knots, xs)| Case { knots, xs })
 }
 
 /// maximum size of the m-th derivative of p on a span of width h (sum of absolute terms)
@@ -132,6 +148,8 @@ impl Property for C14 {
         let repeated_interior = c.knots.interior.iter().any(|(_, m)| (*m as usize).clamp(1, (k - 1).max(1)) >= 2);
         v.label_if(repeated_interior, "knots:repeated-interior");
         v.label_if(c.knots.interior.is_empty(), "knots:no-interior");
+        v.label_if(c.knots.scale_exp < 0, "domain:tiny");
+        v.label_if(c.knots.scale_exp > 0, "domain:huge");
         let last = t[t.len() - 1];
         for xs in &c.xs {
             let x = resolve_x(&t, xs);
@@ -249,7 +267,7 @@ impl Property for C14 {
     }
 
     fn rule(&self) -> String {
-        "random (order k in 1..6, knot sequence with k-fold end knots and 0-8 interior knots on a quarter grid with multiplicity <= max(1, k-1) and spans 0.25..4, 1-5 evaluation points drawn exactly on knots, at both end points, at span midpoints, at the doubles adjacent to knots, and uniformly); for every point ALL basis indices i and ALL derivative orders m = 0..k+1 are evaluated. Oracle: Cox-de Boor carried out on polynomial coefficient vectors per knot span (right limit; left limit at the right end point): equality within 1e-10 x the polynomial's size on the span, non-negativity, exact zero outside [t_i, t_(i+k)], sum_i B_i = 1, sum_i B_i^(m) = 0, exact zero for m >= k; the vectorised entry points PPSpline::bspldnev and ::bsplmatrix (all i, m; end-row orders varied) agree bit-for-bit with the scalar functions. Non-trivial: k >= 3 and the point is an interior knot or the right end point.".into()
+        "random (order k in 1..6, knot sequence with k-fold end knots and 0-8 interior knots on a quarter grid with multiplicity <= max(1, k-1) and spans 0.25..4, the whole sequence scaled by 2^-70..-30 or 2^20..40 in 40% of draws (domains of 1e-18 and of 1e9 such as POSIX timestamps), 1-5 evaluation points drawn exactly on knots, at both end points, at span midpoints, at the doubles adjacent to knots, and uniformly); for every point ALL basis indices i and ALL derivative orders m = 0..k+1 are evaluated. Oracle: Cox-de Boor carried out on polynomial coefficient vectors per knot span (right limit; left limit at the right end point): equality within 1e-10 x the polynomial's size on the span, non-negativity, exact zero outside [t_i, t_(i+k)], sum_i B_i = 1, sum_i B_i^(m) = 0, exact zero for m >= k; the vectorised entry points PPSpline::bspldnev and ::bsplmatrix (all i, m; end-row orders varied) agree bit-for-bit with the scalar functions. Non-trivial: k >= 3 and the point is an interior knot or the right end point.".into()
     }
 
     fn floors(&self, tier: Tier) -> Vec<Floor> {
@@ -262,6 +280,8 @@ impl Property for C14 {
             Floor { label: "x:knot-neighbour", min: n / 10 },
             Floor { label: "order:1", min: n / 10 },
             Floor { label: "order:6", min: n / 10 },
+            Floor { label: "domain:tiny", min: n / 10 },
+            Floor { label: "domain:huge", min: n / 10 },
         ]
     }
 }
